@@ -10,6 +10,7 @@ void harness(void)
     xv_ghost_havoc();
     xv_addrpub_env_havoc();
     xv_addrpub_havoc();
+    XV_KEEP(name_port_make) XV_KEEP(ip_port_make)
     const char *proto; const struct xcm_addr_host *h; uint16_t port; char *out; size_t cap;
     int rv = host_port_make(proto, h, port, out, cap);
     if (rv == 0 && xv_mk_type == (int)xcm_addr_type_name) XV_CANARY("name formatted");
